@@ -201,6 +201,15 @@ def normalization(c):
         return T(data.f / den, "float", None, None, data.eshape)
 
     c.interp.F_ns._table["normalize"] = Model(fnorm, "F.normalize = v / max(||v||_p, eps)")
+
+    def vnorm(itp, data, ord=2, dim=None, keepdim=False, **k):
+        # the p-norm of the hooked attribute is the one symbol `norm_of_w` whichever torch routine computes it
+        c.info["_normalize_args"] = (ord, dim, None)
+        return T(n, "float", None, None, data.eshape)
+
+    from pyvc.interp import Namespace as _NS
+
+    c.interp.torch_ns._table["linalg"] = _NS("torch.linalg", dict(vector_norm=Model(vnorm, "torch.linalg.vector_norm = ||v||_p"), norm=Model(vnorm, "torch.linalg.norm = ||v||_p")))
     Nz = c.interp.classv(repo.load_module(NH).classes["Normalization"])
     h = c.call(Nz, m, "weight", order, scale, None, eps)
     c.call(c.getattr(h, "hook"), m)
@@ -208,7 +217,7 @@ def normalization(c):
     den = z3.If(n >= eps.z, n, eps.z)
     c.ensure("attribute_is_scale_times_normalised", v == scale.z * w.f / den)
     a = c.info.get("_normalize_args")
-    c.ensure("order_dim_eps_forwarded", a is not None and num(a[0]) is not None and z3.is_true(z3.simplify(num(a[0]) == order.z)) and a[1] is None and z3.is_true(z3.simplify(num(a[2]) == eps.z)))
+    c.ensure("order_dim_eps_forwarded", a is not None and a[0] is not None and a[2] is not None and z3.is_true(z3.simplify(num(a[0]) == order.z)) and a[1] is None and z3.is_true(z3.simplify(num(a[2]) == eps.z)))
     # norm homogeneity ||c v|| = |c| ||v||  =>  the new norm is |scale| (when ||v|| >= eps); zero vectors stay zero
     absf = lambda x: z3.If(x >= 0, x, -x)  # noqa: E731
     newnorm = absf(scale.z / den) * n
@@ -224,6 +233,7 @@ ASSUMPTIONS = [
 ]
 
 MUTANTS = [
+    dict(file=MATH, func="normalize", old="    return scale * F.normalize(data, p=order, dim=dim, eps=epsilon)  # type: ignore", new="    norm = torch.linalg.vector_norm(data, order, dim=dim, keepdim=True)\n    return scale * (data / (norm + epsilon))", contracts=["Normalization.hook"], name="seed C16e: epsilon added to the norm instead of clamping it from below"),
     dict(file=INF, func="Hook.evalexec@setter", old="        self.__call_eval = value", new="        self.__call_train = value", contracts=["Hook.flags_reconfigured"]),
     dict(file=INF, func="Hook.__wrapped_posthook", old="if self.trainexec and module.training:", new="if self.trainexec or module.training:", contracts=["Hook.lifecycle"]),
     dict(file=INF, func="Hook.__wrapped_posthook", old="        if self.evalexec and not module.training:", new="        elif self.evalexec and not module.training:", contracts=["Hook.lifecycle"], expect="survives", name="control: elif is equivalent (the two conditions are exclusive on module.training)"),
